@@ -147,6 +147,7 @@ def c08(report):
     ljobs = life_jobs(report.tier, report.seed, FULL_OPS | {"warm_start"}, over=dict(QueryRows={1, 2, 3}), tag="-c08", checks=("state", "shape"))
     ecf.defer(ljobs, by_clause("shape", "state.keys", "state.arms", "call.exception"))
     ecf.flush(report)
+    suite_leg(report, by_clause("suite.result", "suite.post.arms"))
     _nontrivial_from_counts(report, "cf.queries")
 
 
@@ -173,6 +174,8 @@ def c10(report):
     ljobs = life_jobs(report.tier, report.seed, FULL_OPS | {"warm_start"}, over=dict(QueryRows={1, 3}), tag="-c10", checks=("readonly",))
     ecf.defer(ljobs, by_clause("readonly"))
     ecf.flush(report)
+    suite_leg(report, lambda f: f["clause"].startswith("suite.post") and f["op"] in ("predict", "predict_expectations")
+              and f["label"].get("out") == "ok")
     _nontrivial_from_counts(report, "cf.queries")
 
 
@@ -197,8 +200,16 @@ def c13(report):
     for job in jobs:
         if job["consts"]["LP"] == "ts":
             job["consts"]["Rewards"] = {0, 1}
-    ecf.run_jobs(report, jobs, either(by_clause("state.", "call.exception", ops={"warm_start"}),
-                                      by_clause("state.cold_arms", "state.status")))
+    ecf.defer(jobs, either(by_clause("state.", "call.exception", ops={"warm_start"}),
+                           by_clause("state.cold_arms", "state.status")))
+    # linear policies: Lin.tla with warm_start (tie features a = b)
+    ljobs = lin_jobs(report.tier, report.seed, ops={"fit", "partial_fit", "warm_start", "predict_expectations"}, checks=("state",),
+                     tag="-c13", over=dict(InitArms=["a", "b", "c"], MaxDepth=4, QuerySets={((1, 1),)} ), scaled=False)
+    for job in ljobs:
+        if job["consts"]["D"] == 1:
+            job["consts"]["QuerySets"] = {((1,),)}
+    ecf.defer(ljobs, either(by_clause("state.", "call.exception", ops={"warm_start"}), by_clause("state.cold_arms", "state.status")))
+    ecf.flush(report)
     big = dict(Labels={"a", "b", "c", "d"}, InitArms=["a", "b", "c", "d"], Ops=set(ops), MaxBatch=1, Rewards={1, 3},
                Quantiles={(0, 1), (1, 2), (1, 1)}, MaxDepth=5, MaxHist=2)
     negatives(report, [("eg", "WarmFromWarm", "Prop_C13_WarmStart", big),
@@ -249,6 +260,7 @@ def c17(report):
                       only=lambda c: c[1] is not None or c[0].startswith("lin-"), tag="-c17", checks=("reject",))
     ecf.defer(ljobs, by_clause("reject"))
     ecf.flush(report)
+    suite_leg(report, lambda f: f["clause"].startswith("suite.post") and f["label"].get("out") not in ("ok", "?"))
     _nontrivial_from_counts(report, "cf.rejects")
 
 
@@ -377,7 +389,7 @@ LIN_GRIDS = {
 }
 
 
-def lin_jobs(tier, seed, ops=None, checks=None, regs=("ridge", "ucb", "ts"), tag=""):
+def lin_jobs(tier, seed, ops=None, checks=None, regs=("ridge", "ucb", "ts"), tag="", over=None, scaled=True):
     jobs = []
     lams = [(1, 2), (4, 1), (1, 1)] if tier == "thorough" else [[(1, 2), (4, 1)][seed % 2]]
     ops = ops or {"fit", "partial_fit", "add_arm", "remove_arm", "predict_expectations", "predict"}
@@ -394,13 +406,14 @@ def lin_jobs(tier, seed, ops=None, checks=None, regs=("ridge", "ucb", "ts"), tag
             grid = LIN_GRIDS[d]
             depth = 4 if tier == "thorough" else 3
             base = dict(grid, Lambda=lam, Ops=set(ops))
+            base.update(over or {})
             jobs.append(dict(common, name="lin%s-d%d-l%s-bfs" % (tag, d, "_".join(map(str, lam))), mode="bfs",
                              consts=ecf.lin_consts(**dict(base, MaxDepth=depth, MaxHist=3, MaxBatch=1))))
             n = 300 if tier == "thorough" else 80
             jobs.append(dict(common, name="lin%s-d%d-l%s-sim" % (tag, d, "_".join(map(str, lam))), mode="sim", sim_num=n,
                              seed=seed + d, consts=ecf.lin_consts(**dict(base, MaxDepth=8, MaxHist=8, MaxBatch=2))))
     # scale=True, single fit (the case the property covers): Fit then queries, contexts as float64 / int arrays
-    for d in (1, 2):
+    for d in ((1, 2) if scaled else ()):
         lam = lams[d % len(lams)]
         binds = []
         for i, reg in enumerate(regs):
@@ -840,6 +853,14 @@ def c20(report):
     report.evaluations = report.replayed
     report.assumptions += ["row-order invariance is checked for context-free, linear, Radius and LSHNearest (as the property states); "
                            "reward laws for histories in which the compared arm has been observed"]
+
+
+def suite_leg(report, keep):
+    """The repository's own tests, run with hooks on, validated against Life.tla by TraceLife.tla."""
+    from harness import suite
+    from harness.common import ROOT
+    files = None if report.tier == "thorough" else suite.QUICK_FILES[report.seed % 2::2] + ["tests/test_invalid.py"]
+    suite.run(report, ROOT, files, keep)
 
 
 def _nontrivial_from_counts(report, key=None):
